@@ -127,7 +127,10 @@ AllowedC08At(pre, post, ret, reinit, now, p, tol) ==
   /\ post.cur.nb - tol <= now /\ now <= post.cur.na + tol    \* current valid now
   /\ TableOK(pre, post, reinit, now)
   /\ WindowsOK(pre, post, reinit, now, p, tol)
-  /\ ((post # pre \/ Overlap(pre)) => post.next.nb < post.cur.na)                     \* overlap
+  \* overlap.  (Exact tie now = current's last instant: current "ends" at the very instant of the call, the half
+  \* of its remaining life is zero and with a zero not-before skew the new next begins at that same instant; the
+  \* statement leaves no room there, as in TableSet.)
+  /\ ((post # pre \/ Overlap(pre)) /\ post.cur.na > now => post.next.nb < post.cur.na)
   /\ (((reinit \/ IsEmpty(pre)) /\ p.L + p.skna - p.sknb > 2 * tol) =>
          post.next.nb > post.cur.nb /\ post.next.na > post.cur.na)                   \* from empty storage
 
